@@ -125,26 +125,40 @@ class Poly:
         return r
 
     def reduce(self) -> "Poly":
-        """Normalise modulo the declared square relations."""
+        """Normalise modulo the declared square relations (work-list over offending monomials only)."""
         if not _SQUARE:
             return self
-        cur = self
-        for _ in range(64):
-            hit = False
-            out = Poly()
-            for m, c in cur.terms.items():
-                for i, (a, e) in enumerate(m):
-                    if e >= 2 and a in _SQUARE:
-                        rest = m[:i] + (((a, e - 2),) if e > 2 else ()) + m[i + 1:]
-                        out = out + _raw_mul(Poly({tuple(rest): c}), _SQUARE[a])
-                        hit = True
-                        break
+        sq = _SQUARE
+        work = []
+        out: Dict[Mono, Fraction] = {}
+        for m, c in self.terms.items():
+            for a, e in m:
+                if e >= 2 and a in sq:
+                    work.append((m, c))
+                    break
+            else:
+                out[m] = c
+        if not work:
+            return self
+        guard = 0
+        while work:
+            guard += 1
+            if guard > 2000000:
+                raise ArithmeticError("relation reduction did not terminate")
+            m, c = work.pop()
+            for i, (a, e) in enumerate(m):
+                if e >= 2 and a in sq:
+                    rest = m[:i] + (((a, e - 2),) if e > 2 else ()) + m[i + 1:]
+                    for m2, c2 in sq[a].terms.items():
+                        work.append((_mono_mul(rest, m2), c * c2))
+                    break
+            else:
+                v = out.get(m, 0) + c
+                if v == 0:
+                    out.pop(m, None)
                 else:
-                    out = out + Poly({m: c})
-            cur = out
-            if not hit:
-                return cur
-        raise ArithmeticError("relation reduction did not terminate")
+                    out[m] = v
+        return Poly(out)
 
     def __eq__(self, o) -> bool:
         return isinstance(o, Poly) and self.terms == o.terms
@@ -379,6 +393,8 @@ class Rat:
 
     def equals(self, o) -> bool:
         o = Rat.of(o)
+        if self.den.terms == o.den.terms:
+            return self.num.terms == o.num.terms
         return (self.num * o.den - o.num * self.den).is_zero()
 
     def __eq__(self, o) -> bool:
